@@ -61,6 +61,10 @@ def _build(it, S, spec):
     elif kind == "cc":
         a = mk_compound(it, [env["s0"], env["s1"]], [env["e0"], env["e1"]], sa)
         b = mk_compound(it, [env["t0"], env["t1"]], [env["f0"], env["f1"]], sb)
+    elif kind in ("lay", "dist"):
+        mk = lambda lay, st: (mk_single(it, lay[0][0], lay[0][1], st) if len(lay) == 1 else  # noqa: E731
+                              mk_compound(it, [x[0] for x in lay], [x[1] for x in lay], st))
+        a, b = mk(env[0], sa), mk(env[1], sb)
     else:
         raise ValueError(kind)
     return a, b, f"a={_describe(a)} b={_describe(b)}"
@@ -95,7 +99,7 @@ def _ops_on_case(repo, it, S, acls, spec):
     b_over = any(v > 1 for v in multiset(b).values())
     # normal-form demands (EmptyLocation for an empty result) are made only for operands without 0-length blocks
     clean = all(e > s_ for s_, e in blocks_of(a) + blocks_of(b))
-    for ms in (False, True):
+    for ms in (False, True) if spec[0] != "dist" else ():
         strand_ok = (not ms) or sa == sb
         for fs in (False, True):
             n += 1
@@ -141,6 +145,24 @@ def _ops_on_case(repo, it, S, acls, spec):
                     bad("minus form", f"{desc}: minus result ill-formed: {well_formed(v)}", f_minus)
                 elif not wantset and A and clean and not is_empty_obj(v):
                     bad("minus", f"{desc}: empty difference returned as {_describe(v)} instead of EmptyLocation", f_minus)
+    if spec[0] == "dist":
+        spec = ("lay",) + tuple(spec[1:])
+        dist_only = True
+    else:
+        dist_only = False
+    if spec[0] == "lay":
+        # closest-block distance, both receiver orders (symmetric by definition)
+        f_da = repo.fn(f"{LOC}:{acls}.distance_to")
+        f_db = repo.fn(f"{LOC}:{b.cls_name}.distance_to")
+        want_d = min((0 if max(s1, s2) < min(e1, e2) else min(abs(s1 - e2), abs(e1 - s2)))
+                     for s1, e1 in blocks_of(a) for s2, e2 in blocks_of(b))
+        for f, x, y, nm in ((f_da, a, b, "a.distance_to(b)"), (f_db, b, a, "b.distance_to(a)")):
+            n += 1
+            k, v = run(it, f, [y], {}, x)
+            if k != "ok" or v != want_d:
+                bad("distance_to", f"{desc}: {nm} -> {k}:{v}; the closest pair of blocks is {want_d} apart", f)
+        if dist_only:
+            return n, out
     n += 1
     k, v = run(it, f_union, [b], {}, a)
     if sa != sb:
@@ -418,12 +440,48 @@ def r1d_compound_compound(ctx):
 
 
 
+def _run_layouts(universe, nruns):
+    """all sets of positions in range(universe) with exactly nruns maximal runs, as block lists"""
+    out = []
+    for mask in range(1, 1 << universe):
+        blocks = []
+        for p in range(universe):
+            if mask >> p & 1:
+                if blocks and blocks[-1][1] == p:
+                    blocks[-1][1] = p + 1
+                else:
+                    blocks.append([p, p + 1])
+        if len(blocks) == nruns:
+            out.append(tuple((a + 2, b + 2) for a, b in blocks))
+    return out
+
+
+def r6_multi_block(ctx):
+    """three-block receivers against one-/two-/three-block arguments: every pair of position sets over a small universe
+    (the loops over blocks see receivers and arguments with more blocks than the order-type rules enumerate)"""
+    U = 8 if ctx.thorough else 7
+    three, two, one = _run_layouts(U, 3), _run_layouts(U, 2), _run_layouts(U, 1)
+    args = (two + three + one) if ctx.thorough else (two[::2] + three[::4] + one[::4])
+    pairs = [("PLUS", "PLUS"), ("MINUS", "MINUS"), ("MINUS", "PLUS")] if ctx.thorough else [("PLUS", "PLUS")]
+    cases = [("lay", (a, b), sa, sb) for a in three for b in args for sa, sb in pairs]
+    # distance needs room for a far / near / nearer arrangement: wider universe, short blocks, distance only
+    W, maxlen = (10, 2) if ctx.thorough else (9, 1)
+    short = lambda lays: [x for x in lays if all(e - s_ <= maxlen for s_, e in x)]  # noqa: E731
+    cases += [("dist", (a, b), "PLUS", "PLUS") for a in short(_run_layouts(W, 3)) for b in short(_run_layouts(W, 2) + _run_layouts(W, 1))]
+    ctx.r.floor("C02.R6", "pairs of position sets (3-block receiver)", len(cases), 1000)
+    _check_ops(ctx, "C02.R6", cases, "CompoundInterval", "compound(3) x compound(1..3)")
+    fn = ctx.repo.fn(f"{LOC}:CompoundInterval.distance_to")
+    if not any(x.rule == "C02.R6" for x in ctx.r.findings):
+        ctx.r.ok("C02.R6", fn.qual, "closest-block distance, both receiver orders", fn)
+
+
 RULES = [
     ("C02.R1", r1_single_single),
     ("C02.R1cmp", r1_compare),
     ("C02.R1c", r1c_compound_kernels),
     ("C02.R1b", r1b_compound_single),
     ("C02.R1d", r1d_compound_compound),
+    ("C02.R6", r6_multi_block),
 ]
 
 
